@@ -18,6 +18,10 @@ def template(name, k1, k2, k3):
         return [{k1: [{k3: 1, "n": "12"}, {k3: "s", "n": "13", "opt": None}], k2: "2020-01-02"}, {k1: [], k2: "x"}]
     if name == "two_similar_children":      # the two children are merged by the default policy -> a shared model
         return [{k1: {k3: 1, "a": 1, "b": 2, "c": 3}, k2: {k3: 2, "a": 1, "b": 2, "c": 3}}]
+    if name == "optional_containers":
+        # optional list / dict / list of objects under the styled keys (k2 is made a Dict by its digit keys being few: see dkf in C13;
+        # here: a list that is missing in one sample, an object list that is missing, a nested model that is missing)
+        return [{k1: [1, 2], k2: [{k3: 1, "n": "x"}], "inner": {"v": 1}}, {"plain": 1}]
     if name == "deep_chain":
         return [{k1: {k2: {k3: {"leaf": 1}}}, "tail": [{"leaf2": "1.5"}]}]
     if name == "optional_pseudo":
